@@ -185,6 +185,11 @@ class Kit:
             return shadow._obj(t)
         if isinstance(t, (int, float, Fraction, bool)):
             return shadow._obj(E.lift(t))
+        if isinstance(t, np.ndarray):
+            out = np.empty(t.shape, dtype=object)
+            for idx in np.ndindex(*t.shape):
+                out[idx] = E.bconst(bool(t[idx])) if t.dtype == bool else _exact_const(float(t[idx]))
+            return out
         if isinstance(t, (list, tuple)):
             return np.array([self.val(x)[()] if np.ndim(self.val(x)) == 0 else self.val(x) for x in t], dtype=object)
         if self.mode == "sym":
